@@ -540,11 +540,14 @@ class TypeTransformer:
             except (TypeError, ValueError, re.error):
                 continue
 
-        if '+' in str(data):
+        # a negative UTC offset ('-05:00' / ' -0500') carries no '+'
+        neg_offset = re.search(r'( ?)-\d{2}:?\d{2}(:\d{2})?$', str(data))
+        if '+' in str(data) or neg_offset:
+            spaced = ' +' in str(data) or bool(neg_offset and neg_offset.group(1))
             for f in formats:
                 try:
                     # val = t.strptime(data, f + ' %z')
-                    val = t.strptime(data, f + (' %z' if ' +' in str(data) else '%z'))
+                    val = t.strptime(data, f + (' %z' if spaced else '%z'))
                     if is_utc:
                         val = val.replace(tzinfo=timezone.utc)
                     return val
